@@ -76,6 +76,7 @@ int state_status(struct snapraid_state* state)
 	unsigned unscrubbed_blocks;
 	uint64_t all_wasted;
 	int free_not_zero;
+	char esc_buffer[ESC_MAX];
 
 	/* get the present time */
 	now = time(0);
@@ -144,9 +145,9 @@ int state_status(struct snapraid_state* state)
 				++file_zerosubsecond;
 				++disk_file_zerosubsecond;
 				if (disk_file_zerosubsecond < 50)
-					log_tag("zerosubsecond:%s:%s: \n", disk->name, file->sub);
+					log_tag("zerosubsecond:%s:%s: \n", disk->name, esc_tag(file->sub, esc_buffer));
 				if (disk_file_zerosubsecond == 50)
-					log_tag("zerosubsecond:%s:%s: (more follow)\n", disk->name, file->sub);
+					log_tag("zerosubsecond:%s:%s: (more follow)\n", disk->name, esc_tag(file->sub, esc_buffer));
 			}
 
 			/* check fragmentation */
